@@ -434,9 +434,9 @@ Definition aux_distinct (ts : list target) : bool :=
 (* [core_x]: [core_d] and
      - function expressions with a name that is not also a parameter or a declaration of the body
        (c04-es:funcexpr-name-redeclared),
-     - loops whose head (let / const / var declarations, initialisers, the iterated expression) mentions no
-       name that the loop body declares lexically, and whose var names differ from the lexical names of head and
-       body (c04-es:loop-head-shadowed-in-body and its mirror image for initialisers). *)
+     - loops whose body declares lexically no name that the head DECLARES (let / const / var:
+       c04-es:loop-head-shadowed-in-body), and whose var names differ from the lexical names of the head; the head
+       may mention (initialisers, iterated expression) names the body declares: the uses are frozen by MarkForStmt. *)
 Fixpoint core_x (p : prog) : bool :=
   match p with
   | Done => true
@@ -444,33 +444,38 @@ Fixpoint core_x (p : prog) : bool :=
   | Decl d _ k => (match d with DVar | DFun | DLex => true | _ => false end) && core_x k
   | Block b k => core_x b && core_x k
   | Func nm ps b k =>
-      pcore_x ps && core_x b && core_x k
+      hcore_x false ps && core_x b && core_x k
       && (match nm with Some f => negb (mem f (headdecls ps ++ vardecls b ++ lexdecls b)) | None => true end)
   | Arrow ps b k =>
-      pcore_x ps && core_x b && core_x k
+      hcore_x false ps && core_x b && core_x k
   | For hd b k =>
       core_x hd && core_x b && core_x k
-      && disjointb (allnames hd) (lexdecls b) && disjointb (vardecls hd) (lexdecls hd ++ lexdecls b)
-  | Catch hd b k => catch_params_only hd && disjointb (headdecls hd) (vardecls b) && core_x b && core_x k
+      && disjointb (lexdecls hd) (lexdecls b) && disjointb (vardecls hd) (lexdecls hd ++ lexdecls b)
+  | Catch hd b k => hcore_x true hd && disjointb (headdecls hd) (vardecls b) && core_x b && core_x k
   | Class None ms k => core_x ms && is_nil (lexdecls ms) && is_nil (vardecls ms) && core_x k
   | _ => false
   end
-with pcore_x (ps : prog) : bool :=
+with hcore_x (c : bool) (ps : prog) : bool :=
+  (* c = false: a parameter list; c = true: the parameter (pattern) of a catch clause, where a default value may
+     mention a later name of the pattern (Declare(CatchDecl) adopts the earlier uses, as ECMAScript prescribes) *)
   match ps with
   | Done => true
-  | Decl DParam _ k => pcore_x k
-  | Ref x k => negb (mem x (headdecls k)) && pcore_x k
+  | Decl DParam _ k => if c then false else hcore_x c k
+  | Decl DCatch _ k => if c then hcore_x c k else false
+  | Ref x k => (if c then true else negb (mem x (headdecls k))) && hcore_x c k
   | Func nm a b k =>
-      pcore_x a && core_x b
-      && disjointb (allnames a ++ allnames b) (headdecls k) && pcore_x k
-      && (match nm with Some f => negb (mem f (headdecls a ++ vardecls b ++ lexdecls b)) && negb (mem f (headdecls k)) | None => true end)
+      hcore_x false a && core_x b
+      && (if c then true else disjointb (allnames a ++ allnames b) (headdecls k)) && hcore_x c k
+      && (match nm with Some f => negb (mem f (headdecls a ++ vardecls b ++ lexdecls b)) && (if c then true else negb (mem f (headdecls k))) | None => true end)
   | Arrow a b k =>
-      pcore_x a && core_x b
-      && disjointb (allnames a ++ allnames b) (headdecls k) && pcore_x k
+      hcore_x false a && core_x b
+      && (if c then true else disjointb (allnames a ++ allnames b) (headdecls k)) && hcore_x c k
   | Class None ms k =>
-      core_x ms && is_nil (lexdecls ms) && is_nil (vardecls ms) && disjointb (allnames ms) (headdecls k) && pcore_x k
+      core_x ms && is_nil (lexdecls ms) && is_nil (vardecls ms)
+      && (if c then true else disjointb (allnames ms) (headdecls k)) && hcore_x c k
   | _ => false
   end.
+Notation pcore_x := (hcore_x false).
 
 (* ---- comparing partitions -------------------------------------------------------------------- *)
 (* canonical numbering of a list by first occurrence: two lists induce the same partition of
